@@ -76,11 +76,28 @@ func vxWNumInt64(n json.Number) (int64, error) {
 	}
 	return 0, vxErr("strconv.ParseInt: invalid syntax")
 }
-func vxWLockIndex(key string) uint8 { return 0 }
+
+// a client holds the server-side-consistent spelling of its token ("ssc:"+stored id); the stored id is what the entry is
+// kept under. The two spellings hash to different lock stripes (255 times out of 256).
+func vxWCanon(id string) string {
+	if len(id) > 4 && id[:4] == "ssc:" {
+		return id[4:]
+	}
+	return id
+}
+func vxWLockIndex(key string) uint8 {
+	if key == "wt" {
+		return 0
+	}
+	return 1
+}
 func vxWJSON(v any) ([]byte, error) { return vxBox(v), nil }
 
 func vxWLookupInternal(ts *TokenStore, ctx context.Context, id string, salted, tainted bool) (*logical.TokenEntry, error) {
 	t := vxWW.token
+	if !salted {
+		id = vxWCanon(id) // lookupInternal resolves the server-side-consistent spelling
+	}
 	if t == nil || t.ID != id {
 		return nil, nil
 	}
@@ -92,11 +109,15 @@ func vxWLookupInternal(ts *TokenStore, ctx context.Context, id string, salted, t
 }
 
 func vxWStore(ts *TokenStore, ctx context.Context, te *logical.TokenEntry) error {
+	if vxWW.token != nil && te.ID == vxWW.token.ID {
+		vxAssert("the wrapping token's entry is stored while the write lock of ITS stripe (the stored id's) is held", vxHeldW(ts.tokenLocks[vxWLockIndex(te.ID)]))
+	}
 	c := *te
 	vxWW.token = &c
 	return nil
 }
 
+// revokeOrphan salts the id it is given: the server-side-consistent spelling is NOT resolved there
 func vxWRevokeOrphan(ts *TokenStore, ctx context.Context, id string) error {
 	vxWW.revoked = append(vxWW.revoked, id)
 	if vxWW.token != nil && vxWW.token.ID == id {
@@ -115,18 +136,26 @@ func vxWCreate(ts *TokenStore, ctx context.Context, entry *logical.TokenEntry, p
 	return nil
 }
 
+// the cubbyhole a request reaches is the one of the token ENTRY attached to it (routeCommon; decided under C12)
+func vxWReqToken(req *logical.Request) string {
+	if te := req.TokenEntry(); te != nil {
+		return te.ID
+	}
+	return ""
+}
+
 func vxWRoute(r *routing.Router, ctx context.Context, req *logical.Request) (*logical.Response, error) {
 	switch req.Operation {
 	case logical.ReadOperation: // cubbyhole/response (or cubbyhole/wrapinfo) read with the wrapping token
 		if req.Path == "cubbyhole/wrapinfo" {
 			vxWW.infoReads++
-			if vxWW.payload == nil || vxWW.token == nil || req.ClientToken != vxWW.token.ID {
+			if vxWW.payload == nil || vxWW.token == nil || vxWReqToken(req) != vxWW.token.ID {
 				return logical.ErrorResponse("no value found at cubbyhole/wrapinfo"), nil
 			}
 			return &logical.Response{Data: map[string]any{"creation_ttl": json.Number("60000000000"), "creation_path": "secret/x"}}, nil
 		}
 		vxWW.cubbyReads++
-		if vxWW.payload == nil || vxWW.token == nil || req.ClientToken != vxWW.token.ID {
+		if vxWW.payload == nil || vxWW.token == nil || vxWReqToken(req) != vxWW.token.ID {
 			return logical.ErrorResponse("no value found at cubbyhole/response"), nil
 		}
 		return &logical.Response{Data: vxWW.payload}, nil
@@ -149,6 +178,13 @@ func vxWRegisterAuth(m *ExpirationManager, ctx context.Context, te *logical.Toke
 		return vxErr("lease registration failed")
 	}
 	return nil
+}
+
+func vxWBodyToken() string {
+	if vxBool("token in the body is in its server-side-consistent spelling") {
+		return "ssc:wt"
+	}
+	return "wt"
 }
 
 func vxWCore() *Core {
@@ -220,7 +256,7 @@ func VxRewrapAndUnwrapShareOneUse() {
 	got := 0
 	for i := 0; i < vxParam("attempts")-1; i++ {
 		if vxBool("operation is a rewrap (else an unwrap)") {
-			d := &framework.FieldData{Raw: map[string]any{"token": "wt"}, Schema: map[string]*framework.FieldSchema{"token": {Type: framework.TypeString}}}
+			d := &framework.FieldData{Raw: map[string]any{"token": vxWBodyToken()}, Schema: map[string]*framework.FieldSchema{"token": {Type: framework.TypeString}}}
 			resp, err := b.handleWrappingRewrap(ctx, &logical.Request{ClientToken: "caller", Operation: logical.UpdateOperation}, d)
 			if err == nil && resp != nil && !resp.IsError() && resp.Data != nil && resp.Data["response"] != nil {
 				got++
@@ -256,7 +292,7 @@ func VxRewrapWhileAnotherInFlight() {
 		token:   &logical.TokenEntry{ID: "wt", NumUses: tokenRevocationPending, Policies: []string{"response-wrapping"}, NamespaceID: namespace.RootNamespaceID},
 		payload: map[string]any{"response": payload},
 	}
-	d := &framework.FieldData{Raw: map[string]any{"token": "wt"}, Schema: map[string]*framework.FieldSchema{"token": {Type: framework.TypeString}}}
+	d := &framework.FieldData{Raw: map[string]any{"token": vxWBodyToken()}, Schema: map[string]*framework.FieldSchema{"token": {Type: framework.TypeString}}}
 	resp, err := b.handleWrappingRewrap(ctx, &logical.Request{ClientToken: "caller", Operation: logical.UpdateOperation}, d)
 	vxReach("rewrap: second request while the first is in flight")
 	vxAssert("a rewrap in flight behind another use obtains nothing", err != nil || resp == nil || resp.Data == nil || resp.Data["response"] == nil)
